@@ -1,9 +1,23 @@
 """C02 — one transaction record groups a commit; ids never dangle or leak."""
 import corebase as B
-from corebase import CHECK_MODS, CASE_TYPE, CORR, run_impl, encode, shrink  # noqa: F401
+from corebase import run_impl  # noqa: F401
 
 PROP = 'C02'
-PROPCHK = 'C02_prop'
+CHECK_MODS = list(B.CHECK_MODS) + ['Checks.C02chk']
+CASE_TYPE = 'C02_case'
+CORR, PROPCHK = 'C02c_corr', 'C02c_prop'
+
+
+def encode(case, obs):
+    return '(%s %s)' % ('C02_O' if case.get('obs_only') else 'C02_H', B.encode(case, obs))
+
+
+def shrink(case):
+    out = B.shrink(case)
+    for c in out:
+        if case.get('obs_only'):
+            c['obs_only'] = True
+    return out
 THEOREMS = ['C02_no_dangling_reference', 'C02_rows_carry_current_id', 'C02_one_record_per_transaction',
             'C02_record_iff_modified', 'C02_invariant', 'C02_example']
 RULE = ('seeded user programs (add / set incl. same-value and NULL / delete / link / unlink / re-point / flush / commit / '
@@ -35,6 +49,18 @@ def gen_cases(rng, n, tier):
                 k += 1
                 prog.append(['helper', 20 + k])
         c['prog'] = prog
+    # versioning switched off and on again while a history runs (observation-only cases)
+    for i in range(max(8, n // 40)):
+        base = [['add', 0, 1, {'a': 1}], ['add', 0, 2, {'a': 1}], ['commit']]
+        for rnd in range(rng.randint(1, 3)):
+            base += [['set', 0, rng.choice([1, 2]), {'a': 10 + 3 * rnd}]]
+            if rng.random() < 0.7:
+                base.append(['flush'])
+            base += [['vswitch', False]]
+            if rng.random() < 0.6:
+                base.append(['set', 3, 1, {'a': rnd}] if rnd else ['add', 3, 1, {'a': 0}])
+            base += [['commit'], ['vswitch', True], ['set', 0, rng.choice([1, 2]), {'a': 11 + 3 * rnd}], ['commit']]
+        cases.append(dict(cfg=dict(shape='blog', strategy=rng.choice(['validity', 'subquery']), twin=False), prog=base, obs_only=True))
     return cases
 
 
@@ -46,6 +72,12 @@ def corpus():
              prog=[['add', 3, 1, {'a': 0}], ['commit'], ['set', 3, 1, {'a': 1}], ['commit'],
                    ['add', 0, 1, {'a': 1}], ['flush'], ['add', 1, 1, {}], ['flush'], ['rollback'],
                    ['add', 0, 1, {'a': 2}], ['commit']]),
+        # the manager-level switch options['versioning'] turned off before a commit and on again afterwards (judged on
+        # the observations only): the next transaction gets a record of its own
+        dict(cfg=dict(shape='blog', strategy='validity', twin=False), obs_only=True,
+             prog=[['add', 0, 1, {'a': 1}], ['commit'], ['set', 0, 1, {'a': 2}], ['flush'], ['vswitch', False],
+                   ['add', 3, 1, {'a': 0}], ['commit'], ['vswitch', True], ['set', 0, 1, {'a': 3}], ['add', 0, 2, {'a': 1}],
+                   ['commit']]),
         # a helper session on the same connection, committed inside the main session's database transaction
         dict(cfg=dict(shape='blog', strategy='validity'),
              prog=[['add', 0, 1, {'a': 1}], ['commit'], ['set', 0, 1, {'a': 2}], ['flush'], ['helper', 21],
